@@ -1,0 +1,39 @@
+//go:build verif
+
+// Package vhook holds verification hooks (build tag "verif"): named points at which a test
+// harness can observe, yield or delay, and a counter of background goroutines in flight.
+package vhook
+
+import (
+	"sync/atomic"
+)
+
+type handlerBox struct {
+	f func(point string, args ...interface{})
+}
+
+var (
+	handler atomic.Value // handlerBox
+	pending int64
+)
+
+// SetHandler installs the function called at every hook point (nil removes it).
+func SetHandler(f func(point string, args ...interface{})) {
+	handler.Store(handlerBox{f})
+}
+
+// At marks a named point of the code.
+func At(point string, args ...interface{}) {
+	if h, ok := handler.Load().(handlerBox); ok && h.f != nil {
+		h.f(point, args...)
+	}
+}
+
+// Go announces that a background goroutine is about to start.
+func Go() { atomic.AddInt64(&pending, 1) }
+
+// Done announces that a background goroutine has finished.
+func Done() { atomic.AddInt64(&pending, -1) }
+
+// Pending returns the number of announced background goroutines still running.
+func Pending() int64 { return atomic.LoadInt64(&pending) }
